@@ -21,19 +21,30 @@ import (
 // Obligations per element:
 //
 //	(1) family: parser and printer belong to one codec family — (a) over the whole table the
-//	    parser determines the printer and the printer the parser; (b) the parser calls the
-//	    decoder and the printer the encoder of the same row of the inverse-pair table below
-//	    (for strconv with equal base constants); (c) the parser strips `len(a.Prefix)` from its
-//	    token and the printer's result starts with `a.Prefix` (leftmost operand of a `+` chain, or
-//	    first argument of a fmt.Sprintf whose format starts with "%s"), a being the function's
-//	    own first parameter.
+//	    parser determines the printer and the printer the parser; (b) either both call the two
+//	    halves of one row of the inverse-pair table below (the b6 codecs), or both are the plain
+//	    number codec and agree on what matters for the value's type (FeatureID.Value, uint64):
+//	    base, signedness and width. The printer is read from the call that prints the Value of
+//	    its FeatureID parameter — strconv.FormatUint / AppendUint(v, B), FormatInt / AppendInt /
+//	    Itoa, or a fmt.Sprintf / Sprint verb %d %v (base 10) %x %X (16) %o (8) %b (2) — and the
+//	    integer conversions wrapped around the operand; the parser from strconv.ParseUint(s, B,
+//	    bits) / ParseInt / Atoi and the conversions between its result and the integer field of
+//	    the FeatureID literal it builds. Violations name the values lost: a signed step on either
+//	    side (Itoa(int(v)), FormatInt(int64(v)), ParseInt, Atoi) loses v >= 2^63; a width below
+//	    64 bits (uint32(v), bitSize 32) loses v >= 2^width; the bases must be equal constants.
+//	    A table codec on one side and the number codec on the other is a violation. (c) the
+//	    parser strips `len(a.Prefix)` from its token and the printer's result starts with
+//	    `a.Prefix` (leftmost operand of a `+` chain, first argument of a fmt.Sprintf whose format
+//	    starts with "%s", or string(strconv.AppendX([]byte(a.Prefix), …))), a being the
+//	    function's own first parameter.
 //	(2) no other element has the same namespace with the same type (the invalid type is a
 //	    wildcard in the printer's lookup, so it clashes with every type).
 //	(3) the prefix begins and ends with '/', and neither it nor any other element's prefix nor a
 //	    full-form head "/<type>/" (type names taken from the constant strings returned by the
 //	    non-default cases of b6.FeatureType.String) is a prefix of the other.
 //
-// An unknown codec function, a non-constant field, or a printer/parser of another shape is
+// A non-constant field or base, or a printer/parser whose number handling cannot be read (no
+// strconv/fmt call on the Value, the parsed number not reaching the FeatureID literal) is
 // `undecided`.
 func init() {
 	register(&Rule{
@@ -47,10 +58,10 @@ func init() {
 	})
 }
 
-// jInversePairs: decoder/encoder pairs the alias parsers and printers are built on, by
-// types.Func full name. This is the rule's idiom list: a new alias family needs a new row.
+// jInversePairs: decoder/encoder pairs of the root package the alias parsers and printers are
+// built on, by types.Func full name (the plain number codec is not tabled: it is read from the
+// code, see jNumPrinter / jNumParser). A new b6 alias codec needs a new row.
 var jInversePairs = [][2]string{
-	{"strconv.ParseUint", "strconv.FormatUint"},
 	{ModulePath + ".FeatureIDFromUKONSCode", ModulePath + ".UKONSCodeFromFeatureID"},
 	{ModulePath + ".PointIDFromGBPostcode", ModulePath + ".PostcodeFromPointID"},
 }
@@ -367,35 +378,48 @@ func jAliasFamily(c *Ctx, a *jAlias, prefixField string) (bad, unk []string) {
 	if ffd == nil || ffd.Body == nil || tfd == nil || tfd.Body == nil {
 		return nil, []string{"parser or printer is not declared in the module"}
 	}
-	// (1b)
-	row := func(calls map[string]*ast.CallExpr, col int) (int, *ast.CallExpr, int) {
+	// (1b) the codec family of each side: a b6 codec of the inverse-pair table, or the plain
+	// number codec read from the strconv/fmt calls
+	row := func(calls map[string]*ast.CallExpr, col int) (int, int) {
 		found, n := -1, 0
-		var call *ast.CallExpr
 		for i, pair := range jInversePairs {
-			if cl, ok := calls[pair[col]]; ok {
-				found, call = i, cl
+			if _, ok := calls[pair[col]]; ok {
+				found = i
 				n++
 			}
 		}
-		return found, call, n
+		return found, n
 	}
-	fr, fcall, fn := row(jCallees(fp.TypesInfo, ffd.Body), 0)
-	tr, tcall, tn := row(jCallees(tp.TypesInfo, tfd.Body), 1)
+	fr, fn := row(jCallees(fp.TypesInfo, ffd.Body), 0)
+	tr, tn := row(jCallees(tp.TypesInfo, tfd.Body), 1)
 	switch {
-	case fn != 1:
-		unk = append(unk, fmt.Sprintf("parser %s calls %d known decoders (need exactly one of the inverse-pair table)", a.from.Name(), fn))
-	case tn != 1:
-		unk = append(unk, fmt.Sprintf("printer %s calls %d known encoders (need exactly one of the inverse-pair table)", a.to.Name(), tn))
-	case fr != tr:
-		bad = append(bad, fmt.Sprintf("parser %s decodes with %s but printer %s encodes with %s: not one family", a.from.Name(), jInversePairs[fr][0], a.to.Name(), jInversePairs[tr][1]))
+	case fn > 1 || tn > 1:
+		unk = append(unk, "parser or printer calls more than one codec of the inverse-pair table")
+	case fn == 1 && tn == 1:
+		if fr != tr {
+			bad = append(bad, fmt.Sprintf("parser %s decodes with %s but printer %s encodes with %s: not one family", a.from.Name(), jInversePairs[fr][0], a.to.Name(), jInversePairs[tr][1]))
+		}
 	default:
-		if strings.HasPrefix(jInversePairs[fr][0], "strconv.") && len(fcall.Args) >= 2 && len(tcall.Args) >= 2 {
-			fb, tb := jConst(fp.TypesInfo, fcall.Args[1]), jConst(tp.TypesInfo, tcall.Args[1])
-			if fb == nil || tb == nil {
-				unk = append(unk, "number base is not constant")
-			} else if !constant.Compare(fb, token.EQL, tb) {
-				bad = append(bad, fmt.Sprintf("parser reads base %s but printer writes base %s", fb, tb))
-			}
+		// at least one side is not a table codec: both must be the number codec, and agree
+		var pn, tnum *jNumCodec
+		var pwhy, twhy string
+		if fn == 0 {
+			pn, pwhy = jNumParser(fp.TypesInfo, ffd)
+		}
+		if tn == 0 {
+			tnum, twhy = jNumPrinter(tp.TypesInfo, tfd)
+		}
+		switch {
+		case fn == 1 && tnum != nil:
+			bad = append(bad, fmt.Sprintf("parser %s decodes with %s but printer %s prints a plain number (%s): not one family", a.from.Name(), jInversePairs[fr][0], a.to.Name(), tnum.how))
+		case tn == 1 && pn != nil:
+			bad = append(bad, fmt.Sprintf("parser %s reads a plain number (%s) but printer %s encodes with %s: not one family", a.from.Name(), pn.how, a.to.Name(), jInversePairs[tr][1]))
+		case fn == 0 && pn == nil:
+			unk = append(unk, fmt.Sprintf("cannot read how parser %s turns the text into the value: %s", a.from.Name(), pwhy))
+		case tn == 0 && tnum == nil:
+			unk = append(unk, fmt.Sprintf("cannot read how printer %s turns the value into text: %s", a.to.Name(), twhy))
+		default:
+			bad = append(bad, jNumAgree(a, pn, tnum)...)
 		}
 	}
 	// (1c)
@@ -441,6 +465,20 @@ func jAliasFamily(c *Ctx, a *jAlias, prefixField string) (bad, unk []string) {
 		if isOwnPrefix(tp.TypesInfo, tfd, e) {
 			emits = true
 		}
+		// string(strconv.AppendUint([]byte(a.Prefix), v, 10))
+		if conv, ok := e.(*ast.CallExpr); ok && len(conv.Args) == 1 {
+			if tv, ok := tp.TypesInfo.Types[conv.Fun]; ok && tv.IsType() {
+				if app, ok := ast.Unparen(conv.Args[0]).(*ast.CallExpr); ok && len(app.Args) >= 1 {
+					if f := calleeFunc(tp.TypesInfo, app); f != nil && f.Pkg() != nil && f.Pkg().Path() == "strconv" && strings.HasPrefix(f.Name(), "Append") {
+						if dst, ok := ast.Unparen(app.Args[0]).(*ast.CallExpr); ok && len(dst.Args) == 1 {
+							if tv, ok := tp.TypesInfo.Types[dst.Fun]; ok && tv.IsType() && isOwnPrefix(tp.TypesInfo, tfd, dst.Args[0]) {
+								emits = true
+							}
+						}
+					}
+				}
+			}
+		}
 		if call, ok := e.(*ast.CallExpr); ok && len(call.Args) >= 2 {
 			if f := calleeFunc(tp.TypesInfo, call); f != nil && f.FullName() == "fmt.Sprintf" {
 				if format, ok := jConstString(tp.TypesInfo, call.Args[0]); ok && strings.HasPrefix(format, "%s") && isOwnPrefix(tp.TypesInfo, tfd, call.Args[1]) {
@@ -454,4 +492,324 @@ func jAliasFamily(c *Ctx, a *jAlias, prefixField string) (bad, unk []string) {
 		unk = append(unk, fmt.Sprintf("no result of printer %s starts with a.%s", a.to.Name(), prefixField))
 	}
 	return bad, unk
+}
+
+// jNumCodec describes how a plain number travels through one side of an alias.
+type jNumCodec struct {
+	base   int64
+	signed bool   // some step treats the value as a signed integer
+	width  int    // narrowest integer width on the way, in bits
+	how    string // the source text that does it
+}
+
+func jIntWidth(t types.Type) (width int, signed, ok bool) {
+	b, isBasic := t.Underlying().(*types.Basic)
+	if !isBasic || b.Info()&types.IsInteger == 0 {
+		return 0, false, false
+	}
+	switch b.Kind() {
+	case types.Int8:
+		return 8, true, true
+	case types.Int16:
+		return 16, true, true
+	case types.Int32:
+		return 32, true, true
+	case types.Int64, types.Int:
+		return 64, true, true
+	case types.Uint8:
+		return 8, false, true
+	case types.Uint16:
+		return 16, false, true
+	case types.Uint32:
+		return 32, false, true
+	case types.Uint64, types.Uint, types.Uintptr:
+		return 64, false, true
+	}
+	return 0, false, false
+}
+
+// jStripIntConversions removes integer conversions around e, folding them into the codec.
+func jStripIntConversions(info *types.Info, e ast.Expr, k *jNumCodec) ast.Expr {
+	for {
+		e = ast.Unparen(e)
+		if w, sg, ok := jIntWidth(info.TypeOf(e)); ok {
+			if sg {
+				k.signed = true
+			}
+			if w < k.width {
+				k.width = w
+			}
+		}
+		call, ok := e.(*ast.CallExpr)
+		if !ok || len(call.Args) != 1 {
+			return e
+		}
+		if tv, ok := info.Types[call.Fun]; !ok || !tv.IsType() {
+			return e
+		}
+		e = call.Args[0]
+	}
+}
+
+// jNumPrinter reads how the printer turns the Value of its FeatureID parameter into digits.
+func jNumPrinter(info *types.Info, fd *ast.FuncDecl) (*jNumCodec, string) {
+	isValueOfParam := func(e ast.Expr) bool {
+		sel, ok := ast.Unparen(e).(*ast.SelectorExpr)
+		if !ok {
+			return false
+		}
+		s, ok := info.Selections[sel]
+		if !ok || s.Kind() != types.FieldVal || !isNamed(s.Recv(), ModulePath, "FeatureID") {
+			return false
+		}
+		if _, _, isInt := jIntWidth(s.Type()); !isInt {
+			return false
+		}
+		id, ok := ast.Unparen(sel.X).(*ast.Ident)
+		if !ok {
+			return false
+		}
+		for _, fl := range fd.Type.Params.List {
+			for _, n := range fl.Names {
+				if info.Defs[n] == info.ObjectOf(id) {
+					return true
+				}
+			}
+		}
+		return false
+	}
+	var found []*jNumCodec
+	why := "no strconv/fmt call prints the Value of the FeatureID parameter"
+	try := func(call *ast.CallExpr, operand ast.Expr, base int64, signed bool) {
+		k := &jNumCodec{base: base, signed: signed, width: 64, how: types.ExprString(call)}
+		if inner := jStripIntConversions(info, operand, k); isValueOfParam(inner) {
+			found = append(found, k)
+		}
+	}
+	constBase := func(e ast.Expr) (int64, bool) {
+		k := jConst(info, e)
+		if k == nil {
+			return 0, false
+		}
+		v, ok := constant.Int64Val(constant.ToInt(k))
+		return v, ok
+	}
+	ast.Inspect(fd.Body, func(n ast.Node) bool {
+		call, ok := n.(*ast.CallExpr)
+		if !ok {
+			return true
+		}
+		f := calleeFunc(info, call)
+		if f == nil || f.Pkg() == nil {
+			return true
+		}
+		switch f.Pkg().Path() + "." + f.Name() {
+		case "strconv.FormatUint", "strconv.FormatInt":
+			if len(call.Args) == 2 {
+				if b, ok := constBase(call.Args[1]); ok {
+					try(call, call.Args[0], b, f.Name() == "FormatInt")
+				} else {
+					why = "the base of " + types.ExprString(call) + " is not constant"
+				}
+			}
+		case "strconv.AppendUint", "strconv.AppendInt":
+			if len(call.Args) == 3 {
+				if b, ok := constBase(call.Args[2]); ok {
+					try(call, call.Args[1], b, f.Name() == "AppendInt")
+				} else {
+					why = "the base of " + types.ExprString(call) + " is not constant"
+				}
+			}
+		case "strconv.Itoa":
+			if len(call.Args) == 1 {
+				try(call, call.Args[0], 10, true)
+			}
+		case "fmt.Sprint", "fmt.Sprintln":
+			for _, a := range call.Args {
+				try(call, a, 10, false)
+			}
+		case "fmt.Sprintf":
+			if len(call.Args) < 1 {
+				return true
+			}
+			format, isConst := jConstString(info, call.Args[0])
+			verbs, parsed := jpVerbs(format)
+			if !isConst || !parsed || len(verbs) != len(call.Args)-1 {
+				why = "the format of " + jShort(types.ExprString(call)) + " cannot be paired with its arguments"
+				return true
+			}
+			for i, a := range call.Args[1:] {
+				base := int64(0)
+				switch verbs[i].verb {
+				case 'd', 'v':
+					base = 10
+				case 'x', 'X':
+					base = 16
+				case 'o':
+					base = 8
+				case 'b':
+					base = 2
+				}
+				if base != 0 {
+					try(call, a, base, false)
+				} else {
+					k := &jNumCodec{width: 64}
+					if isValueOfParam(jStripIntConversions(info, a, k)) {
+						why = "the Value is printed with the verb " + verbs[i].text
+					}
+				}
+			}
+		}
+		return true
+	})
+	if len(found) != 1 {
+		if len(found) > 1 {
+			why = "the Value is printed more than once"
+		}
+		return nil, why
+	}
+	return found[0], ""
+}
+
+// jNumParser reads how the parser turns digits into the Value of the FeatureID it builds.
+func jNumParser(info *types.Info, fd *ast.FuncDecl) (*jNumCodec, string) {
+	type parse struct {
+		call *ast.CallExpr
+		k    *jNumCodec
+		obj  types.Object // variable receiving the number
+	}
+	var parses []parse
+	why := "no strconv.ParseUint/ParseInt/Atoi call"
+	ast.Inspect(fd.Body, func(n ast.Node) bool {
+		var lhs []ast.Expr
+		var rhs ast.Expr
+		switch x := n.(type) {
+		case *ast.AssignStmt:
+			if len(x.Rhs) == 1 {
+				lhs, rhs = x.Lhs, x.Rhs[0]
+			}
+		case *ast.ValueSpec:
+			if len(x.Values) == 1 {
+				for _, nm := range x.Names {
+					lhs = append(lhs, nm)
+				}
+				rhs = x.Values[0]
+			}
+		}
+		call, ok := ast.Unparen(rhs).(*ast.CallExpr)
+		if rhs == nil || !ok || len(lhs) != 2 {
+			return true
+		}
+		f := calleeFunc(info, call)
+		if f == nil || f.Pkg() == nil || f.Pkg().Path() != "strconv" {
+			return true
+		}
+		k := &jNumCodec{width: 64, how: types.ExprString(call)}
+		switch f.Name() {
+		case "ParseUint", "ParseInt":
+			if len(call.Args) != 3 {
+				return true
+			}
+			bk, wk := jConst(info, call.Args[1]), jConst(info, call.Args[2])
+			if bk == nil || wk == nil {
+				why = "base or bit size of " + types.ExprString(call) + " is not constant"
+				return true
+			}
+			k.base, _ = constant.Int64Val(constant.ToInt(bk))
+			w, _ := constant.Int64Val(constant.ToInt(wk))
+			if w == 0 {
+				w = 64 // int/uint: 64 bits on the platforms b6 builds for
+			}
+			k.width = int(w)
+			k.signed = f.Name() == "ParseInt"
+		case "Atoi":
+			k.base, k.signed = 10, true
+		default:
+			return true
+		}
+		if id, ok := lhs[0].(*ast.Ident); ok && id.Name != "_" {
+			parses = append(parses, parse{call, k, info.ObjectOf(id)})
+		}
+		return true
+	})
+	// the Value element of the FeatureID literal(s)
+	var found []*jNumCodec
+	ast.Inspect(fd.Body, func(n ast.Node) bool {
+		lit, ok := n.(*ast.CompositeLit)
+		if !ok || !isNamed(info.TypeOf(lit), ModulePath, "FeatureID") || jIsPointer(info.TypeOf(lit)) {
+			return true
+		}
+		for _, el := range lit.Elts {
+			kv, ok := el.(*ast.KeyValueExpr)
+			if !ok {
+				continue
+			}
+			if _, _, isInt := jIntWidth(info.TypeOf(kv.Value)); !isInt {
+				continue
+			}
+			k := &jNumCodec{width: 64}
+			inner := jStripIntConversions(info, kv.Value, k)
+			if id, ok := inner.(*ast.Ident); ok {
+				for _, ps := range parses {
+					if ps.obj == info.ObjectOf(id) {
+						c := *ps.k
+						c.signed = c.signed || k.signed
+						if k.width < c.width {
+							c.width = k.width
+						}
+						if types.ExprString(kv.Value) != id.Name {
+							c.how += ", then " + types.ExprString(kv.Value)
+						}
+						found = append(found, &c)
+					}
+				}
+			}
+		}
+		return true
+	})
+	if len(found) != 1 {
+		if len(parses) > 0 && len(found) == 0 {
+			why = "the parsed number does not reach an integer field of the FeatureID literal in a way the rule follows"
+		} else if len(found) > 1 {
+			why = "more than one parsed number reaches the FeatureID"
+		}
+		return nil, why
+	}
+	return found[0], ""
+}
+
+// jNumAgree compares the two sides of the number codec for a 64-bit unsigned value.
+func jNumAgree(a *jAlias, p, t *jNumCodec) []string {
+	var bad []string
+	lost := func(width int, signed bool) string {
+		if signed && width >= 64 {
+			return "values >= 2^63"
+		}
+		if signed {
+			return fmt.Sprintf("values >= 2^%d", width-1)
+		}
+		return fmt.Sprintf("values >= 2^%d", width)
+	}
+	if t.signed || t.width < 64 {
+		what := "print as negative numbers"
+		if !t.signed {
+			what = "are truncated"
+		}
+		bad = append(bad, fmt.Sprintf("printer %s sends the uint64 value through %s (%s): %s %s and do not parse back to the same ID", a.to.Name(), jIntDesc(t), t.how, lost(t.width, t.signed), what))
+	}
+	if p.signed || p.width < 64 {
+		bad = append(bad, fmt.Sprintf("parser %s reads the number through %s (%s): %s are rejected or wrapped although they are valid IDs", a.from.Name(), jIntDesc(p), p.how, lost(p.width, p.signed)))
+	}
+	if p.base != t.base {
+		bad = append(bad, fmt.Sprintf("parser %s reads base %d (%s) but printer %s writes base %d (%s)", a.from.Name(), p.base, p.how, a.to.Name(), t.base, t.how))
+	}
+	return bad
+}
+
+func jIntDesc(k *jNumCodec) string {
+	s := "an unsigned"
+	if k.signed {
+		s = "a signed"
+	}
+	return fmt.Sprintf("%s %d-bit integer", s, k.width)
 }
